@@ -419,6 +419,13 @@ func (fg *FnGen) evalIdent(name string, env *CEnv) *Val {
 	if v := fg.pkgConst(pkgPath, name); v != nil {
 		return v
 	}
+	// package-level variable: its current value
+	if sp := fg.g.ssaPkgs[pkgPath]; sp != nil {
+		if gv := sp.Var(name); gv != nil {
+			addr := fg.val(gv)
+			return fg.loadIn(env.st, fg.derefQuiet(addr))
+		}
+	}
 	panic(unsupported("unresolved identifier " + name + " in contract of " + fg.key))
 }
 
